@@ -168,21 +168,23 @@ theorem tensordot_int_eq_def (FA FB C : Shape) (hpb : Pos FB) :
 example : (tensordotInt [2, 3, 4] [3, 4, 5] 2).map (fun r => (r.shape, r.get [1, 4])) =
     some ([2, 5], (allIdx [3, 4]).map (fun c => ([1] ++ c, c ++ [4]))) := by decide
 
-/- FULL STATEMENT (explicit axes), not proved for arbitrary rank:
-   theorem tensordot_eq_def (sa sb) (la ra : List Int) (la' ra' : List Nat) (s)
-       (normalisation of la, ra to la', ra') (hacc : specTensordot sa sb la' ra' = some s) (Pos sa) (Pos sb) :
-       ∃ r, tensordotAxes sa sb la ra = some r ∧ r.shape = s.shape ∧ ∀ d, InShape d s.shape → r.get d = s.get d
-   What is proved instead: (1) `tensordot_axes_eq_def_partial` — for every rank and every axis lists the result shape is
-   (free extents of a) ++ (free extents of b) and the terms of `out[p…, q…]` are, for `c` over exactly the contracted
-   block in row-major order, `(scatter (p ++ c) lt, scatter (q ++ c) rt)` with `lt`/`rt` the transposition axes the code
-   computes (free axes in order, then the listed axes in the given order): the same `c` on both sides, every `c` once.
-   The missing step is the identification `scatter (p ++ c) (moveToEnd dim axes) = placeIdx axes c (range dim) p`
-   (that transposing by these axes puts `p` on the free axes in order and `c[t]` on axis `axes[t]`) for arbitrary rank.
-   (2) `tensordot_axes_small_scope_partial` — the full statement for all operand shapes of rank ≤ 2 / extents ≤ 3 and
-   every ordered axis choice, kernel-checked by `decide`. -/
+/-- `view::tensordot(a, b, (lhs_axes, rhs_axes))` = `np.tensordot` for every operand rank, every pair of axis lists that
+    NumPy accepts (equal counts, distinct in-range axes after normalising negative spellings, equal paired extents):
+    the shape is (free extents of a) ++ (free extents of b) and
+    `out[i_free…, j_free…] = Σ_c a[i_free on the free axes, c[t] on lhs_axes[t]] · b[j_free on the free axes, c[t] on rhs_axes[t]]`,
+    `c` running over exactly the contracted extents in row-major order of the listed axes. -/
+theorem tensordot_eq_def (sa sb : Shape) (la ra : List Int) (la' ra' : List Nat) (s : Arr (List Term))
+    (hla : la.mapM (normAxis · sa.length) = some la') (hra : ra.mapM (normAxis · sb.length) = some ra')
+    (hpb : Pos sb) (hacc : specTensordot sa sb la' ra' = some s) :
+    ∃ r, tensordotAxes sa sb la ra = some r ∧ r.shape = s.shape ∧ ∀ d, InShape d s.shape → r.get d = s.get d :=
+  tensordotAxes_eq_spec sa sb la ra la' ra' s hla hra hpb hacc
 
-/-- explicit axes, any ranks: shape and term structure with the two transposes in `scatter` form (see the comment above) -/
-theorem tensordot_axes_eq_def_partial (sa sb : Shape) (la ra : List Int) (la' ra' : List Nat) (FA FB C : Shape)
+example : [(-3 : Int), 2].mapM (normAxis · 3) = some [0, 2] ∧ [(2 : Int), -2].mapM (normAxis · 3) = some [2, 1] ∧ Pos [5, 4, 2] ∧
+    (specTensordot [2, 3, 4] [5, 4, 2] [0, 2] [2, 1]).map (fun s => (s.shape, (s.get [1, 3]).take 3)) =
+      some ([3, 5], [([0, 1, 0], [3, 0, 0]), ([0, 1, 1], [3, 1, 0]), ([0, 1, 2], [3, 2, 0])]) := by decide
+
+/-- auxiliary form: shape and term structure with the two transposes still in `scatter` form -/
+theorem tensordot_axes_term_structure (sa sb : Shape) (la ra : List Int) (la' ra' : List Nat) (FA FB C : Shape)
     (hla : la.mapM (normAxis · sa.length) = some la') (hra : ra.mapM (normAxis · sb.length) = some ra')
     (hta : (moveToEnd sa.length la').mapM (fun k => sa[k]?) = some (FA ++ C))
     (htb : (moveToEnd sb.length ra').mapM (fun k => sb[k]?) = some (FB ++ C))
@@ -197,9 +199,9 @@ example : [(-3 : Int), 2].mapM (normAxis · 3) = some [0, 2] ∧ (moveToEnd 3 [0
     ∧ (moveToEnd 3 [2, 1]).mapM (fun k => [5, 4, 2][k]?) = some ([5] ++ [2, 4]) := by decide
 example : scatter ([1] ++ [0, 3]) (moveToEnd 3 [0, 2]) = placeIdx [0, 2] [0, 3] (List.range 3) [1] := by decide
 
-/-- explicit axes, the full statement on the small scope: every pair of operand shapes of rank ≤ 2 with extents 1..3,
+/-- cross-check of `tensordot_eq_def` by kernel evaluation: every pair of operand shapes of rank ≤ 2 with extents 1..3,
     every ordered choice of contracted axes that NumPy accepts — NumPy's shape and exactly NumPy's terms at every index -/
-theorem tensordot_axes_small_scope_partial (sa sb : Shape)
+theorem tensordot_axes_small_scope (sa sb : Shape)
     (ha : sa ∈ shapesOfRank 1 3 ∨ sa ∈ shapesOfRank 2 3) (hb : sb ∈ shapesOfRank 1 3 ∨ sb ∈ shapesOfRank 2 3) :
     tensordotAgrees sa sb = true := by
   have hsplit : ∀ x, x ∈ shapesOfRank 2 3 →
